@@ -124,7 +124,7 @@ Proof.
   - change 16%nat with (8 + 8)%nat. rewrite <- skipn_add, S8. apply skipn_exact. exact Ho.
 Qed.
 
-Lemma magic_facts has_lot c :
+Lemma magic_facts (has_lot c : bool) :
   length (ec_magic has_lot) = 8%nat /\
   (if bytes_eqb (ec_magic has_lot) magic_lot then Some (if c then x24 else x04)
    else if bytes_eqb (ec_magic has_lot) magic_nolot then Some (if c then x20 else x00) else None)
@@ -154,7 +154,7 @@ Proof.
 Qed.
 
 (* ---------------------------------------------------------------- what the decryption reads back *)
-Lemma flag_reads has_lot c :
+Lemma flag_reads (has_lot c : bool) :
   mem_byte [ec_flag has_lot c] lib_lot_flags = has_lot /\
   mem_byte [ec_flag has_lot c] lib_compressed_flags = c.
 Proof. destruct has_lot, c; split; reflexivity. Qed.
@@ -262,8 +262,13 @@ Proof.
     end. split; assumption. }
   destruct Ld as (Ld & S0).
   assert (Edec : lib_bip38_decrypt P utf8 scrypt aes_dec H H160 b58e b58d pubser (nk_wif nk) pw = Ok i).
-  { rewrite Ew. unfold b58check, lib_bip38_decrypt. fold cs. rewrite (b58_rt43 _ Ld), S0.
-    change (bytes_eqb pfx_ec pfx_ec) with true. cbv iota. exact Di. }
+  { rewrite Ew. unfold b58check, lib_bip38_decrypt. fold cs. rewrite (b58_rt43 _ Ld).
+    assert (Lpay : length (ec_payload (ec_flag has_lot c) oe pp seed (ec_addr [x00] pk)) = 39%nat).
+    { rewrite app_length, Hcs in Ld. lia. }
+    rewrite Ld. change (43 - 4)%nat with 39%nat. cbn [Nat.eqb negb orb].
+    unfold last_n. rewrite Ld. change (43 - 4)%nat with 39%nat.
+    rewrite (skipn_exact _ _ 39 Lpay), (firstn_exact _ _ 39 Lpay). fold cs. rewrite bytes_eqb_refl. cbn [negb].
+    rewrite S0. change (bytes_eqb pfx_ec pfx_ec) with true. cbv iota. exact Di. }
   assert (Rs : 0 <= secret < 256 ^ 32).
   { pose proof (Z.mod_pos_bound (pfz * fbz) secp_order ltac:(unfold secp_order; lia)).
     assert (secp_order < 256 ^ 32) by (vm_compute; reflexivity). unfold secret. lia. }
